@@ -14,14 +14,18 @@ META = {
     "derivation path; on execution the AST received by the executor must equal (fields-only dump, ast.dump, calc_ast_hash) that of a "
     "twin chain built in parallel without any QMetaData; distinct by operation-kind sequence; non-trivial = >= 2 consecutive QMetaData "
     "calls and >= 1 sibling conflict",
-    "assumptions": ["None is not used as a metadata value (indistinguishable from 'never set')"],
+    "assumptions": ["a key set to None reads like a key never set (both None): only the order 'something, then None' is informative and is judged"],
     "floor_evaluations": {"quick": 20000, "thorough": 500000},
     "floor_nontrivial": {"quick": 50, "thorough": 1000},
     "floor_counters": {"quick": {"lookup-probes": 20000, "twin-comparisons": 200}, "thorough": {"lookup-probes": 500000, "twin-comparisons": 5000}},
     "anchors": ["func_adl/object_stream.py", "func_adl/ast/meta_data.py"],
 }
 KEYS = ["a", "b", "c", "title"]
-VALUES = [1, 2, "x", (1, 2), {"n": 1}, 0, False, "", 0.0, (), True, ["a.root"], ["a.root", "b.root"], ["b.root"], []]
+VALUES = [1, 2, "x", (1, 2), {"n": 1}, 0, False, "", 0.0, (), True, ["a.root"], ["a.root", "b.root"], ["b.root"], [],
+          # None is a value like any other: set after something else it is "the value most recently set" (and reads like "never set")
+          None, None,
+          # containers that compare equal and differ inside (python: [1, 0.0] == [True, -0.0], {'c': 1} == {'c': True})
+          [1, 0.0], [True, -0.0], {"calib": 1}, {"calib": True}, (1, 2.0), (1.0, 2), {"n": 1.0}, [[1]], [[True]]]
 try:
     # values whose `==` has no truth value and whose printed form hides where they differ: told apart by being the object that was set
     import numpy as _np
@@ -193,12 +197,18 @@ def directed(ctx):
     s1 = hist.qmetadata(root, {"a": "s1"})
     z = hist.qmetadata(c, {"a": 0, "flag": False})
     z2 = hist.qmetadata(root, {"s": ""})
-    checks = [(z, "a", 0), (z, "flag", False), (z, "b", 2), (z2, "s", ""), (b, "a", 1), (b, "b", 2), (c, "a", 3), (c, "b", 2), (a, "b", None), (root, "a", None), (s1, "a", "s1"), (a, "a", 1)]
+    n1 = hist.qmetadata(c, {"a": None})
+    n2 = hist.derive(n1, "Select", "lambda e: e", None, "string")
+    n3 = hist.qmetadata(n2, {"b": [True, -0.0]})
+    n4 = hist.qmetadata(hist.qmetadata(n3, {"b": [1, 0.0]}), {"c": {"calib": 1}})
+    n5 = hist.qmetadata(n4, {"c": {"calib": True}})
+    checks = [(n1, "a", None), (n2, "a", None), (n2, "b", 2), (n3, "b", [True, -0.0]), (n4, "b", [1, 0.0]), (n4, "c", {"calib": 1}), (n5, "c", {"calib": True}), (n5, "a", None),
+              (z, "a", 0), (z, "flag", False), (z, "b", 2), (z2, "s", ""), (b, "a", 1), (b, "b", 2), (c, "a", 3), (c, "b", 2), (a, "b", None), (root, "a", None), (s1, "a", "s1"), (a, "a", 1)]
     for e, k, exp in checks:
         got = lookup_query_metadata(e.s, k)
         ctx.case(f"directed:{e.how}:{k}", True)
         ctx.count("lookup-probes")
-        if got != exp:
+        if differs(got, exp):
             why = "earlier-key-lost" if exp is not None and got is None else ("sees-unset-key" if exp is None else "wrong-value")
             ctx.violation(f"lookup:{why}", f"directed: lookup({e.how}, {k!r}) = {got!r}, expected {exp!r}", {"directed": True})
 
@@ -241,10 +251,58 @@ def bare_roots(ctx):
     ctx.count("bare-root-histories", 12)
 
 
+def nested_streams(ctx, nhist=10):
+    """stage functions handed over as ast.Lambda objects whose body was built with the library itself - a stream rooted in the lambda's
+    parameter (the way the library builds its own nested streams) on which QMetaData was used: those values are not on the outer
+    stream's derivation path, whatever the order in which nodes are visited"""
+    import ast
+
+    from func_adl import ObjectStream
+    from func_adl.ast.meta_data import lookup_query_metadata
+
+    for hseed in range(nhist):
+        rnd = random.Random(hseed * 77 + ctx.seed * 1009 + ctx.shard)
+        hist = History(random.Random(hseed), [], n_datasets=1)
+        streams = [(hist.streams[0].s, {}, "ds")]
+        for step in range(rnd.randint(3, 10)):
+            s, model, how = rnd.choice(streams[-4:])
+            k = rnd.random()
+            if k < 0.35:
+                d = {rnd.choice(KEYS): rnd.choice([1, 2, "x", (1, 2), 0, False, "", None])}
+                ns, nm, nh = s.QMetaData(dict(d)), {**model, **d}, how + f".QMetaData({d})"
+            else:
+                inner = ObjectStream(ast.Name(id="x", ctx=ast.Load()))
+                for _ in range(rnd.randint(1, 2)):
+                    inner = inner.QMetaData({rnd.choice(KEYS): rnd.choice(["inner", 7, (0,)])})
+                    if rnd.random() < 0.5:
+                        inner = inner.Select("lambda j: j.pt")
+                lam_ = ast.Lambda(args=ast.arguments(posonlyargs=[], args=[ast.arg(arg="x")], kwonlyargs=[], kw_defaults=[], defaults=[]), body=inner.query_ast)
+                op = rnd.choice(["Select", "SelectMany", "Where"]) if k < 0.9 else "Select"
+                try:
+                    ns = getattr(s, op)(lam_)
+                except ValueError:
+                    continue
+                nm, nh = dict(model), how + f".{op}(<lambda whose body is a library-built stream with its own QMetaData>)"
+            streams.append((ns, nm, nh))
+            for st, mo, ho in streams:
+                for key in KEYS:
+                    ctx.count("lookup-probes")
+                    ctx.evaluations += 1
+                    got, exp = lookup_query_metadata(st, key), mo.get(key)
+                    if differs(got, exp):
+                        why = "earlier-key-lost" if exp is not None and got is None else ("sees-unset-key" if exp is None else "wrong-value")
+                        ctx.violation(f"lookup:{why}:value-of-a-stream-inside-a-lambda", f"lookup({ho[-220:]}, {key!r}) = {got!r}, the derivation path says {exp!r}", {"nested_streams": True})
+                        return
+        ctx.case(f"nested-stream-history:{hseed}", True)
+    ctx.count("nested-stream-histories", nhist)
+
+
 def shard_main(ctx):
     if ctx.shard == 0:
         directed(ctx)
         bare_roots(ctx)
+    if ctx.shard in (0, 2, 5):
+        nested_streams(ctx)
     for i in range(N_CASES[ctx.tier]):
         if ctx.out_of_time():
             ctx.count("stopped-by-time-budget")
@@ -254,7 +312,9 @@ def shard_main(ctx):
 
 
 def replay(ctx, witness):
-    if witness.get("bare_roots"):
+    if witness.get("nested_streams"):
+        nested_streams(ctx)
+    elif witness.get("bare_roots"):
         bare_roots(ctx)
     elif witness.get("directed"):
         directed(ctx)
